@@ -38,13 +38,23 @@ REGISTRY = {
     "C08": ("vsim.engines.rfsim", "exploration", 1000, 30000, 90, 900),
     "C11": ("vsim.engines.rfsim", "exploration", 1000, 30000, 90, 900),
     "C19": ("vsim.engines.rfsim", "exploration", 1500, 40000, 90, 900),
+    "C12": ("vsim.engines.mdsim", "exploration", 1500, 40000, 90, 900),
+    "C13": ("vsim.engines.mdsim", "exploration", 1500, 40000, 90, 900),
+    "C20": ("vsim.engines.mdsim", "exploration", 800, 20000, 90, 900),
 }
 
 _RF = ("one run = one seeded history: channel configuration (type cell x rate x cadences x mode, start snapped to a "
        "file/subdir boundary half of the time) x writer session(s) through the real C library in a forked node x "
        "reader/query history on old and fresh reader objects under a shuffled readdir order; distinct = distinct "
        "trace digests (FS-op trace of the recorder + outcome); ")
+_MD = ("one run = one seeded call-level history on one tree: ascending metadata writes (single / dict-of-arrays / "
+       "list-of-dicts, indices biased to ceil(j*cadence*n/d)+{-1,0,1} and to digit-count changes), duplicate attempts, "
+       "writer reopen, reader construction, queries on old and new readers, clock jumps; distinct = distinct trace "
+       "digests; non-trivial: >= 3 samples in >= 2 files; ")
 RULES = {
+    "C12": _MD + "every read compared with an ordered-map model",
+    "C13": _MD + "after every write every stored group located on disk with raw h5py and compared with exact placement",
+    "C20": _MD + "RF writes interleaved in 70% of the runs; whole-tree fingerprint (hash, mtime_ns, inode) around every read-only call",
     "C01": _RF + "non-trivial: >= 2 data files and >= 1 file-spanning write",
     "C04": _RF + "non-trivial: >= 2 data files and >= 1 file-spanning write",
     "C05": _RF + "invalid calls of every class interleaved; non-trivial: >= 2 data files",
